@@ -37,6 +37,10 @@ CLAIMED = {
    text='Machine-checked proof (Lean 4): conditional_selects — for EVERY well-formed conditional tree (any number of .elif arms, with or without .else, nested to any depth in taken and untaken branches, arbitrary payload text including text that does not parse), followed by any lines, from every state, the model of parse_iter/skip on the text of the tree ends in exactly the state (or failure) of the reference semantics that assembles only the plain lines of the first branch whose condition holds (or of .else), in order — by mutual structural induction over the tree with lemmas for every way skip moves over a tree (skip_block…, finish_construct); loop-bound irrelevance of the line loop is proved (fuel_irrelevant). Tie: differential run (impl vs model) and the metamorphic oracle the property names (build(src) = build(src with unselected lines blanked)) over all shapes x truth assignments x nesting positions and random deeper trees.',
    note='Trusted: Lean kernel; well-formedness restricts construct directive lines to carry no label and plain lines in SELECTED positions not to be .macro/.exit lines (outcome "scope": no claim); the last step to "program with the lines deleted" is exercised by the metamorphic run, not yet a theorem.',
    technique='Lean 4 theorem (simulation by mutual structural induction over conditional trees) + metamorphic differential correspondence', ref='6/C08'),
+ 'C10': dict(
+   text='Machine-checked proof (Lean 4) of the binding rules on the model of context.rs / pass 1 / pass 2 / get_r8: lookup_case and alias_case (labels, .equ, .set, pc and .def aliases are matched without regard to letter case), set_latest (after an assignment every spelling of the name yields the value just assigned), def_binds / undef_unbinds (alias is the register from .def to .undef), alias_same_bytes (for EVERY mnemonic, operand position and context an instruction using a live alias is byte-identical to one using the register), undefined_is_error (an unknown name never evaluates — in particular not to 0), dead_alias_is_bad, and (C02) the label step: a name already taken fails with its line. Tie: differential run of random symbol programs; oracle = the generator\'s independent binder: build(P) must equal build(hand-resolved P), and every mutant (single definition deleted, duplicate label, alias after .undef, label/.equ clash) must fail. Two genuine defects found by this check were repaired (label vs .equ clash, duplicate .equ).',
+   note='Trusted: Lean kernel, the generator\'s binder (documented rules), model tied by correspondence. The global statement (every reference of every program resolves to its unique definition) is not one theorem; it is the composition of the step theorems plus the differential/mutant run. .define flags are case-sensitive by design of the tool (outside the property).',
+   technique='Lean 4 theorems on the symbol-table steps + differential correspondence with hand-resolved programs and must-fail mutants', ref='6/C10'),
  'C12': dict(
    text='Machine-checked proof (Lean 4): Gen obligation devices_match_partdefs (every shipped includes/*def.inc that names a device of the table declares exactly the four capacities the table enforces; table re-extracted by executing DEVICES, part files re-parsed, on every run); build_fits / limits_exact (a build succeeds iff code <= 2*flash words, eeprom <= eeprom bytes, RAM extent <= RAM size of the device selected, and reports that device\'s sizes); pass1_within; unknown/second device are errors; documented defaults. Tie: exhaustive differential run over every device x 3 memories x {-1,0,+1} x ways of filling.',
    note='Trusted: Lean kernel, static parser of the part files, hand-written model of builder/mod.rs + pass1 tied by correspondence; for devices without a part file the expected capacity is the code\'s own row.',
